@@ -255,6 +255,16 @@ CLAIMED["C07"]["technique"] += (" COL-CACHE: an `if` never decides from the cont
                                  "(must-write summaries with column parameters resolved per call).")
 for _p in CLAIMED:
     CLAIMED[_p]["technique"] += " ZERO-CMP: syntax-tree scan of the anchored modules - no absolute temperature (scalar, array, table column) is compared with the literal 0."
+for _p in ("C01", "C15", "C19"):
+    CLAIMED[_p]["technique"] += (" DERIVED-SIB: sibling cross-check of the base-field property setters - each ends in the class's full recompute on its straight-line spine "
+                                 "(majority convention derived from the class; a partial helper is not the recompute).")
+for _p in ("C03", "C04", "C07"):
+    CLAIMED[_p]["technique"] += (" COUNT-GUARD: control-dependence scan in the row-inserting sweep - no store into table contents under a test of the insertion count.")
+for _p in ("C12", "C19"):
+    CLAIMED[_p]["technique"] += " WHO-ALWAYS: the renaming insert has no early return decided by a look at the members already stored."
+CLAIMED["C11"]["technique"] += " E3 roots include the raw-input parameter of every pydantic before-validator; pop/setdefault on a caller-owned container are sinks."
+for _p in CLAIMED:
+    CLAIMED[_p]["technique"] += " MEMO-PARAM: no result computed from a parameter object is parked on that object behind an emptiness test unless its class has a dropper."
 CLAIMED["C10"]["technique"] += " DEDUP-ID: taint of input stream records into every keep-one-per-key construct (identity keys only)."
 
 NOT_APPLICABLE = {
